@@ -67,8 +67,13 @@ Walk(ls, text, known, st) ==
                         THEN Walk(Tail(ls), text, known, [st1 EXCEPT !.seen = @ \cup {<<s.name, s.hash>>}, !.sigs = Append(@, <<s.name, s.hash>>)])
                         ELSE Fail("invalid")
 
-Open(msg, known) ==
-    LET ls == msg.lines
+\* A message whose last line is empty and lacks its newline is, byte for byte, the message without that line:
+\* (lines, finalnl) has two spellings for it, of which the second is the normal form.
+NormMsg(msg) == IF ~msg.finalnl /\ msg.lines # <<>> /\ msg.lines[Len(msg.lines)].k = "blank"
+                THEN [lines |-> SubSeq(msg.lines, 1, Len(msg.lines) - 1), finalnl |-> TRUE] ELSE msg
+Open(msg0, known) ==
+    LET msg == NormMsg(msg0)
+        ls == msg.lines
         blanks == {j \in 2..Len(ls) : ls[j].k = "blank"} IN
     \* the whole message must be valid UTF-8 without ASCII control characters other than newline
     IF \E i \in 1..Len(ls) : ls[i].k # "blank" /\ ls[i].bad THEN Malformed
